@@ -20,6 +20,7 @@ import (
 	"sort"
 	"strconv"
 	"strings"
+	"unicode/utf8"
 
 	"golang.org/x/perf/benchfmt"
 	"golang.org/x/perf/benchunit"
@@ -390,14 +391,14 @@ func fsDiffCfg(got, want map[string]string) string {
 type fsEvent struct {
 	Ev    string            `json:"ev"`
 	T     int               `json:"t"`
-	Cfg   map[string]string `json:"cfg"` // file part of the result handed to the writer
-	Int   []string          `json:"internal"`        // keys that were internal in that result
-	Lines []fsLine          `json:"lines"`           // what the writer emitted for it (abstracted)
-	Got   map[string]string `json:"got"`             // file configuration of the record read back
-	GotM  string            `json:"gotm"`            // measurement token read back
-	M     string            `json:"m"`               // measurement token written
-	Src   string            `json:"src,omitempty"`   // how the result was obtained
-	Raw   string            `json:"raw,omitempty"`   // emitted text (diagnostics)
+	Cfg   map[string]string `json:"cfg"`           // file part of the result handed to the writer
+	Int   []string          `json:"internal"`      // keys that were internal in that result
+	Lines []fsLine          `json:"lines"`         // what the writer emitted for it (abstracted)
+	Got   map[string]string `json:"got"`           // file configuration of the record read back
+	GotM  string            `json:"gotm"`          // measurement token read back
+	M     string            `json:"m"`             // measurement token written
+	Src   string            `json:"src,omitempty"` // how the result was obtained
+	Raw   string            `json:"raw,omitempty"` // emitted text (diagnostics)
 }
 
 type fsLine struct {
@@ -481,6 +482,7 @@ func fsRecord(args []string) error {
 	for t := 0; t < n; t++ {
 		rng := newRand(int64(t))
 		ew.emit(map[string]interface{}{"ev": "reset", "t": t})
+		fsNewValPool(rng)
 		switch {
 		case t%3 == 0:
 			fsRecordAPI(ew, t, rng)
@@ -494,12 +496,66 @@ func fsRecord(args []string) error {
 			}
 		}
 	}
+	if len(fsToolFails) > 0 {
+		b, _ := json.Marshal(fsToolFails)
+		if err := os.WriteFile(args[0]+".toolfails", b, 0o644); err != nil {
+			return err
+		}
+	}
 	return ew.close()
+}
+
+// fsToolFails: a tool that fails on generated, well-formed text is a deviation of
+// the code under test, not a failure of the harness; the plan reports these.
+var fsToolFails []map[string]interface{}
+
+func fsToolFail(t int, sig, detail string) {
+	fsToolFails = append(fsToolFails, map[string]interface{}{"t": t, "signature": sig, "detail": detail})
+}
+
+func fsExitDetail(err error) string {
+	if ee, ok := err.(*exec.ExitError); ok {
+		st := string(ee.Stderr)
+		if len(st) > 300 {
+			st = st[:300]
+		}
+		return fmt.Sprintf("benchfilter '*': %v: %s", err, st)
+	}
+	return fmt.Sprintf("benchfilter '*': %v", err)
 }
 
 var fsBigKeys = []string{"goos", "goarch", "pkg", "cpu", "note", "k", "kk", "k-1", "é", "a.b", "commit", "x_y"}
 
+// fsValPool: a few values per trace that keep coming back, so that a key returns
+// to exactly an earlier value (A -> B -> A), with lengths on both sides of the
+// allocator's size classes and of the scanner's first buffer.
+var fsValPool []string
+
+func fsNewValPool(rng interface{ Intn(int) int }) {
+	fsValPool = fsValPool[:0]
+	lens := []int{1, 3, 8, 9, 16, 17, 33, 70, 130, 600, 4100, 9000}
+	huge := rng.Intn(6) == 0
+	for i := 0; i < 5; i++ {
+		n := lens[rng.Intn(len(lens)-2)]
+		if huge && i == 4 {
+			n = lens[len(lens)-2+rng.Intn(2)]
+		}
+		if i < 2 {
+			n = lens[rng.Intn(4)]
+		}
+		frag := []string{"fmt", "encoding/json", "x y", "é-1", "a=b:c"}[rng.Intn(5)]
+		v := strings.Repeat(frag, n/len(frag)+1)[:n]
+		for !utf8.ValidString(v) {
+			v = v[:len(v)-1]
+		}
+		fsValPool = append(fsValPool, strings.TrimSpace(v)+fmt.Sprint(i))
+	}
+}
+
 func fsRandVal(rng interface{ Intn(int) int }) string {
+	if len(fsValPool) > 0 && rng.Intn(2) == 0 {
+		return fsValPool[rng.Intn(len(fsValPool))]
+	}
 	alphabet := []string{"a", "b", " ", "  ", ":", "é", "1", "-", "/", "=", "B", "\t", "x y", "#"}
 	n := 1 + rng.Intn(4)
 	var sb strings.Builder
@@ -518,6 +574,10 @@ func fsRandValues(rng interface {
 	Float64() float64
 }) []benchfmt.Value {
 	n := 1 + rng.Intn(3)
+	if rng.Intn(40) == 0 {
+		// a line longer than the scanner's first buffer
+		n = 300 + rng.Intn(300)
+	}
 	var vals []benchfmt.Value
 	for i := 0; i < n; i++ {
 		x := fsFloats[rng.Intn(len(fsFloats))]
@@ -683,12 +743,14 @@ func fsRecordParsed(ew *eventWriter, t int, rng interface {
 		files := benchfmt.Files{Paths: args, AllowLabels: true}
 		collect(files.Scan, files.Result)
 		if err := files.Err(); err != nil {
-			return err
+			fsToolFail(t, "reader-fails-on-wellformed-input", fmt.Sprintf("benchfmt.Files over generated text: %v", err))
+			return nil
 		}
 		cmd := exec.Command(filterBin, append([]string{"*"}, args...)...)
 		o, err := cmd.Output()
 		if err != nil {
-			return fmt.Errorf("benchfilter: %v", err)
+			fsToolFail(t, "benchfilter-fails-on-wellformed-input", fsExitDetail(err))
+			return nil
 		}
 		out = o
 	case filterBin != "":
@@ -699,7 +761,8 @@ func fsRecordParsed(ew *eventWriter, t int, rng interface {
 		cmd.Stdin = strings.NewReader(text)
 		o, err := cmd.Output()
 		if err != nil {
-			return fmt.Errorf("benchfilter: %v", err)
+			fsToolFail(t, "benchfilter-fails-on-wellformed-input", fsExitDetail(err))
+			return nil
 		}
 		out = o
 	default:
